@@ -110,6 +110,8 @@ pub enum Op {
     /// a new inbound socket (the peer it will turn out to be is fixed now)
     Inbound { peer: u8 },
     Close { pick: u16 },
+    /// add `count` distinct canonical addresses at once (first class as in AddrSel)
+    Bulk { peer: u8, first: u8, start: u16, count: u8 },
 }
 
 #[derive(Debug, Clone, Serialize, Deserialize)]
@@ -199,6 +201,10 @@ pub struct StepRecord {
     /// connection rejected (Reject call) in this step
     pub rejected: Vec<usize>,
     pub injected_established: Option<(usize, PeerId, bool)>,
+    /// addresses whose score this step's stimulus is expected to set: (address as stored, expected score)
+    pub rescored: Vec<(Multiaddr, i32)>,
+    /// addresses offered in this step (AddKnown / DialAddress), as given
+    pub offered: Vec<(PeerId, Multiaddr)>,
 }
 
 pub struct World {
@@ -229,6 +235,21 @@ pub struct World {
     /// do not start more outbound attempts than the outbound limit leaves room for (steers away from a known finding)
     pub avoid_overcommit: bool,
     pub steered: usize,
+}
+
+pub fn kind_score(k: ErrKind) -> i32 {
+    match k {
+        ErrKind::AddressError => i32::MIN,
+        _ => -100,
+    }
+}
+
+fn with_peer(a: &Multiaddr, peer: PeerId) -> Multiaddr {
+    if matches!(a.iter().last(), Some(Protocol::P2p(_))) {
+        a.clone()
+    } else {
+        a.clone().with(Protocol::P2p(peer.into()))
+    }
 }
 
 fn strip_p2p(a: &Multiaddr) -> Multiaddr {
@@ -428,9 +449,25 @@ impl World {
             Op::AddKnown { peer, addrs } => {
                 let p = self.peers[*peer as usize % N_PEERS];
                 let list: Vec<Multiaddr> = addrs.iter().map(|s| self.addr(*peer, s)).collect();
+                rec.offered = list.iter().map(|a| (p, a.clone())).collect();
                 let n = self.m.add_known_address(p, list);
                 rec.api_result = Some(Ok(()));
                 rec.op = format!("{op:?} -> {n}");
+                self.settle(&mut rec)?;
+            }
+            Op::Bulk { peer, first, start, count } => {
+                let p = self.peers[*peer as usize % N_PEERS];
+                let list: Vec<Multiaddr> = (0..*count as u16)
+                    .map(|k| {
+                        let n = start.wrapping_add(k) % 500;
+                        let sel = AddrSel { first: *first, second: 0, port: 30_001 + (n / 100), host: (n % 100) as u8, tail: 1 };
+                        self.addr(*peer, &sel)
+                    })
+                    .collect();
+                rec.offered = list.iter().map(|a| (p, a.clone())).collect();
+                let n = self.m.add_known_address(p, list);
+                rec.api_result = Some(Ok(()));
+                rec.op = format!("AddKnown bulk {op:?} -> {n}");
                 self.settle(&mut rec)?;
             }
             Op::Dial { peer } => {
@@ -444,6 +481,7 @@ impl World {
             Op::DialAddress { peer, addr } => {
                 let a = self.addr(*peer, addr);
                 rec.op = format!("DialAddress {a}");
+                rec.offered = vec![(self.peers[*peer as usize % N_PEERS], a.clone())];
                 rec.api_result = Some(self.m.dial_address(a));
                 self.settle(&mut rec)?;
                 if matches!(rec.api_result, Some(Ok(()))) {
@@ -492,9 +530,12 @@ impl World {
                     let peer = remote.unwrap_or(self.peers[N_PEERS]);
                     self.direction.insert(id, false);
                     rec.injected_established = Some((id, peer, false));
+                    rec.rescored.push((with_peer(&strip_p2p(&address), peer), 100));
                     self.m.inject(Inject::Established { peer, address: strip_p2p(&address), id, listener: false });
                 } else {
-                    self.m.inject(Inject::DialFailure { id, address, error: kinds[(outcome as usize / 2) % 4] });
+                    let kind = kinds[(outcome as usize / 2) % 4];
+                    rec.rescored.push((address.clone(), kind_score(kind)));
+                    self.m.inject(Inject::DialFailure { id, address, error: kind });
                 }
             }
             Obligation::Open { id, addresses } => {
@@ -510,6 +551,12 @@ impl World {
                         .map(|(i, a)| (a.clone(), kinds[(outcome as usize + i) % 4]))
                         .collect();
                     let remote = tcp_multiaddr_to_socket_address(&chosen).ok().and_then(|(_, p)| p);
+                    for (a, k) in &errors {
+                        rec.rescored.push((a.clone(), kind_score(*k)));
+                    }
+                    if let Some(target) = self.attempts.get(&id).map(|a| a.peer) {
+                        rec.rescored.push((with_peer(&strip_p2p(&chosen), target), 100));
+                    }
                     self.m.inject(Inject::Opened { id, address: strip_p2p(&chosen), errors });
                     self.settle(rec)?;
                     if rec.calls.iter().any(|c| matches!(c, Call::Negotiate { id: i } if *i == id)) {
@@ -517,17 +564,23 @@ impl World {
                     }
                     return Ok(());
                 } else {
-                    let errors = addresses.iter().enumerate().map(|(i, a)| (a.clone(), kinds[(outcome as usize + i) % 4])).collect();
+                    let errors: Vec<(Multiaddr, ErrKind)> = addresses.iter().enumerate().map(|(i, a)| (a.clone(), kinds[(outcome as usize + i) % 4])).collect();
+                    for (a, k) in &errors {
+                        rec.rescored.push((a.clone(), kind_score(*k)));
+                    }
                     self.m.inject(Inject::OpenFailure { id, errors });
                 }
             }
             Obligation::Negotiate { id, address, remote } => {
                 if self.general && outcome % 4 == 3 {
-                    self.m.inject(Inject::DialFailure { id, address, error: kinds[(outcome as usize / 4) % 4] });
+                    let kind = kinds[(outcome as usize / 4) % 4];
+                    rec.rescored.push((address.clone(), kind_score(kind)));
+                    self.m.inject(Inject::DialFailure { id, address, error: kind });
                 } else {
                     let peer = remote.unwrap_or(self.peers[N_PEERS]);
                     self.direction.insert(id, false);
                     rec.injected_established = Some((id, peer, false));
+                    rec.rescored.push((with_peer(&strip_p2p(&address), peer), 100));
                     self.m.inject(Inject::Established { peer, address: strip_p2p(&address), id, listener: false });
                 }
             }
